@@ -34,7 +34,7 @@ def jobs(tier):
         for cls in "ABS":
             for lens in lens_all:
                 js.append(("job_format", dict(_name="q=%s %s lens=%s" % (qn, cls, lens), qn=qn, cls=cls, lens=lens)))
-    for g in ("I1024", "I2048", "I3072"):
+    for g in ("I1024", "I2048", "I3072", "toy257", "toy1019", "sp61"):
         js.append(("job_int_scalar_codec", dict(_name="scalar codec %s" % g, gname=g)))
     js.append(("job_ed_scalar_codec", dict(_name="scalar codec Ed25519")))
     js.append(("job_json_ground", dict(_name="json key order / whitespace (ground)")))
@@ -170,11 +170,15 @@ def oracle_format(cls, pw, idA, idB, x, ground_only=False):
                     return (True, "serialize output not ASCII JSON on %s: %r" % (nm, e))
                 if real != ref:
                     return (True, "serialize() differs from the released format on %s class %s: %r vs reference %r" % (nm, c, real, ref))
-                txt = "{\n  " + " ,\n\t".join('"%s" : "%s"' % (k, ref[k]) for k in sorted(ref, reverse=True)) + "\n}  "
-                try:
-                    b = K[c].from_serialized(txt.encode("ascii"), params=params)
-                except Exception as e:
-                    return (True, "reference-encoded state refused on %s class %s: %r" % (nm, c, e))
+                body = ",".join('"%s":"%s"' % (k, ref[k]) for k in sorted(ref))
+                renderings = ["{\n  " + " ,\n\t".join('"%s" : "%s"' % (k, ref[k]) for k in sorted(ref, reverse=True)) + "\n}  ",
+                              "{" + body + "}", "\n{" + body + "}\n", "  \t{ " + body.replace(",", " , ") + " }",
+                              json.dumps(ref, indent=4), json.dumps(ref, sort_keys=True, separators=(",", ":")), "\r\n" + json.dumps(ref) + "\r\n"]
+                for txt in renderings:
+                    try:
+                        b = K[c].from_serialized(txt.encode("ascii"), params=params)
+                    except Exception as e:
+                        return (True, "released-format state in the rendering %r... refused on %s class %s: %r" % (txt[:12], nm, c, e))
                 if b.outbound_message != own[1:]:
                     return (True, "resumed session sends another message on %s class %s" % (nm, c))
                 peer = mk(PEER[c], (xx + 1) % q).start()
